@@ -195,6 +195,9 @@ def gen_expr(full, batch=16):
     (Lit('A', x, y), Eq(V('r'), ('rec', (('a', x), ('b', ('rec', (('c', y),)))))), Eq(V('p'), ('fld', V('r'), 'a')), Eq(V('q'), ('fld', ('fld', V('r'), 'b'), 'c'))),
     (Lit('A', x, y), Eq(V('l'), ('list', (x, y))), ('in', V('p'), V('l')), Eq(V('q'), Call('Size', V('l')))),
     (Lit('A', x, y), ('in', V('p'), ('list', (x, y))), ('in', V('q'), ('list', (V('p'), N(1))))),
+    # record values that cannot be eliminated statically: elements of a list of records
+    (Lit('A', x, y), ('in', V('r'), ('list', (('rec', (('a', x), ('b', y))), ('rec', (('a', y), ('b', Bin('+', x, N(10)))))))), Eq(V('p'), ('fld', V('r'), 'a')), Eq(V('q'), ('fld', V('r'), 'b'))),
+    (Lit('A', x, y), ('in', V('r'), ('list', (('rec', (('a', x), ('b', ('rec', (('c', y),))))),))), Eq(V('p'), ('fld', V('r'), 'a')), Eq(V('q'), ('fld', ('fld', V('r'), 'b'), 'c'))),
     # a variable bound to a compound expression and read more than once (shared sub-tree in the compiler)
     (Lit('A', x, y), Eq(V('r'), ('if', Bin('>', x, N(1)), ('rec', (('lo', Bin('-', x, N(1))), ('hi', Bin('+', x, N(1))))), ('rec', (('lo', N(0)), ('hi', N(10)))))), Eq(V('p'), ('fld', V('r'), 'lo')), Eq(V('q'), ('fld', V('r'), 'hi'))),
     (Lit('A', x, y), Eq(V('r'), ('if', Bin('<', x, y), ('rec', (('lo', x), ('hi', y))), ('if', Bin('==', x, y), ('rec', (('lo', N(7)), ('hi', N(8)))), ('rec', (('lo', y), ('hi', x)))))), Eq(V('q'), ('fld', V('r'), 'hi')), Eq(V('p'), Bin('+', ('fld', V('r'), 'lo'), ('fld', V('r'), 'hi')))),
@@ -276,9 +279,17 @@ def gen_inj(full):
       yield Case('INJ', Program(rules), preds)
 
 
+def gen_reccol():
+  Rp = [R('Rp', x, ('rec', (('a', x), ('b', y))), body=(Lit('A', x, y),)), Ann('@NoInject(Rp);')]
+  yield Case('EXPR', Program(Rp + [R('T', V('p'), V('q'), body=(Lit('Rp', x, V('r')), Eq(V('p'), ('fld', V('r'), 'a')), Eq(V('q'), ('fld', V('r'), 'b'))))]), ['T', 'Rp'])
+  yield Case('EXPR', Program(Rp + [R('T', x, ('fld', V('r'), 'b'), body=(Lit('Rp', x, V('r')), Cmp('>', ('fld', V('r'), 'a'), N(1))))]), ['T'])
+  Lp = [R('Lp', x, ('list', (x, y)), body=(Lit('A', x, y),)), Ann('@NoInject(Lp);')]
+  yield Case('EXPR', Program(Lp + [R('T', x, V('e'), Call('Size', V('l')), body=(Lit('Lp', x, V('l')), ('in', V('e'), V('l'))))]), ['T', 'Lp'])
+
+
 def c01_cases(thorough):
   dbs = dbs_ab(2)
-  gens = [gen_cq(3 if thorough else 2), gen_cons(2 if thorough else 1), gen_disj(thorough), gen_expr(thorough), gen_func(thorough), gen_inj(thorough)]
+  gens = [gen_cq(3 if thorough else 2), gen_cons(2 if thorough else 1), gen_disj(thorough), gen_expr(thorough), gen_reccol(), gen_func(thorough), gen_inj(thorough)]
   seen = set()
   for g in gens:
     for c in g:
